@@ -34,6 +34,9 @@ def gen_inputs(tier, rnd):
                                 table[bad] = ["zz"]
                         for api in ("rows", "validate"):
                             yield {"spec": base_spec(header, unique), "table": table, "mode": "yield", "limit": limit, "api": api}
+                            if api == "rows" and nrows >= 2 and (nrows + header + (limit or 0)) % 3 == 0:
+                                # the same Reader object reads its data a second time: header and limit count from the start again
+                                yield {"spec": base_spec(header, unique), "table": table, "mode": "yield", "limit": limit, "api": api, "prepass": True}
                             if bad is None and not unique:
                                 # the container breaks behind the last row (unterminated quote): the validate-only API must
                                 # not even notice when it stops before, the row API always does
@@ -42,7 +45,8 @@ def gen_inputs(tier, rnd):
         spec = V.gen_spec(rnd, header=rnd.randint(0, 3))
         table = V.gen_table(rnd, spec)
         limit = rnd.choice([None] + list(range(0, len(table) + 2)))
-        yield {"spec": spec, "table": table, "mode": rnd.choice(["yield", "continue", "raise"]), "limit": limit, "api": rnd.choice(["rows", "validate"])}
+        api = rnd.choice(["rows", "validate"])
+        yield {"spec": spec, "table": table, "mode": rnd.choice(["yield", "continue", "raise"]), "limit": limit, "api": api, "prepass": api == "rows" and rnd.random() < 0.2}
 
 
 def direct_oracle(inp, obs):
